@@ -80,7 +80,12 @@ def class_edit_cases(ctx, rng, nlibs, per):
         libs.append(lib)
         libs2.append(lib2)
         for g in graphs:
-            cases.append({"lib": li, "steps": id_steps(g, "A"), "graph": g, "class_edit": info})
+            n = len(g["nodes"])
+            # … and once more after everything is sealed (generated values exist only from then on)
+            after = [{"do": "op", "on": "A", "op": {"op": "seal", "n": k}} for k in range(n)]
+            after += [{"do": "op", "on": "A", "op": {"op": "full", "n": k}} for k in range(n)]
+            after += [{"do": "op", "on": "A", "op": {"op": "raw", "n": k}} for k in range(n)]
+            cases.append({"lib": li, "steps": id_steps(g, "A") + after, "graph": g, "class_edit": info})
     return libs, libs2, cases
 
 
